@@ -119,6 +119,13 @@ func c02build(d c02desc) ([]byte, interfaces.Block, []byte) {
 				nodes = append(nodes, &protocol.SenderSignatureBuilder{MemberId: m.ID, Signature: kit.Sig("C", m.ID, ph, raw)})
 			}
 		}
+	case "strangers": // signed by the committee that the Membership returns for any other reference time than the previous block's
+		nodes = nil
+		for i, m := range kit.Strangers(c) {
+			if d.Signers&(1<<uint(i)) != 0 {
+				nodes = append(nodes, &protocol.SenderSignatureBuilder{MemberId: m.ID, Signature: kit.Sig("C", m.ID, ph, raw)})
+			}
+		}
 	case "dup":
 		if first >= 0 {
 			nodes = append(nodes, &protocol.SenderSignatureBuilder{MemberId: c[first].ID, Signature: kit.Sig("C", c[first].ID, ph, raw)})
@@ -265,7 +272,7 @@ func block0(b interfaces.Block) interfaces.Block {
 }
 
 func c02(r *Rec, replay map[string]interface{}) {
-	r.Rule = "structured: committees {4 equal,(1,2,3,4),(1,1,1,3),5 equal,(0,1,1,1,1)} x every signer subset x {none,+duplicate,+outsider with valid key,+bad signature, signed by the rotating committee of the previous height} x header type 0..5 x instance {=,!=} x height {-1,0,+1} x hash {block's, other} x view {0,1,2^64-1} x seed signature {valid, wrong height, garbage, empty} x previous proof {nil, valid, garbage} x {strict, soft} x block {ok, nil} (quick: at most two header/seed/prev deviations per case; thorough: full product), all signatures genuinely valid over the (possibly wrong) header; byte level: every truncation and every offset x {0x00,0xFF,+1,-1} mutation of base proofs. Oracle: acceptance implies the independent reference predicate over the re-parsed bytes; never panics. distinct_nontrivial = distinct (committee, weight class of signer set, deviation set, mode) classes"
+	r.Rule = "structured: committees {4 equal,(1,2,3,4),(1,1,1,3),5 equal,(0,1,1,1,1)} x every signer subset x {none,+duplicate,+outsider with valid key,+bad signature, signed by the rotating committee of the previous height, signed by the committee the Membership returns for any reference time other than the previous block's} x header type 0..5 x instance {=,!=} x height {-1,0,+1} x hash {block's, other} x view {0,1,2^64-1} x seed signature {valid, wrong height, garbage, empty} x previous proof {nil, valid, garbage} x {strict, soft} x block {ok, nil} (quick: at most two header/seed/prev deviations per case; thorough: full product), all signatures genuinely valid over the (possibly wrong) header; byte level: every truncation and every offset x {0x00,0xFF,+1,-1} mutation of base proofs. Oracle: acceptance implies the independent reference predicate over the re-parsed bytes; never panics. distinct_nontrivial = distinct (committee, weight class of signer set, deviation set, mode) classes"
 	validators := make([]*lh.VerifNode, len(c02committees))
 	for i, c := range c02committees {
 		validators[i] = c02validator(c)
@@ -327,7 +334,7 @@ func c02(r *Rec, replay map[string]interface{}) {
 	}
 	for ci, c := range c02committees {
 		for s := 0; s < 1<<uint(len(c)); s++ {
-			for _, extra := range []string{"none", "dup", "outsider", "badsig", "othercommittee"} {
+			for _, extra := range []string{"none", "dup", "outsider", "badsig", "othercommittee", "strangers"} {
 				for mt := 0; mt <= 5; mt++ {
 					for _, inst := range []bool{true, false} {
 						for _, hd := range []int{0, -1, 1} {
